@@ -439,8 +439,7 @@ class DirectionalVariogram(Variogram):
             self._azimuth = angle
 
         # reset groups and mask cache on azimuth change
-        self._direction_mask_cache = None
-        self._groups = None
+        self._reset_direction_dependent()
 
     @property
     def tolerance(self):
@@ -471,8 +470,7 @@ class DirectionalVariogram(Variogram):
             self._tolerance = angle
 
         # reset groups and mask on tolerance change
-        self._direction_mask_cache = None
-        self._groups = None
+        self._reset_direction_dependent()
 
     @property
     def bandwidth(self):
@@ -510,12 +508,12 @@ class DirectionalVariogram(Variogram):
         elif width > np.max(self.distance):
             print('The bandwidth is larger than the maximum separating '
                   'distance. Thus it will have no effect.')
+            self._bandwidth = width
         else:
             self._bandwidth = width
 
         # reset groups and direction mask cache on bandwidth change
-        self._direction_mask_cache = None
-        self._groups = None
+        self._reset_direction_dependent()
 
     def set_directional_model(self, model_name):
         """Set new directional model
@@ -570,7 +568,18 @@ class DirectionalVariogram(Variogram):
                              'itself')
 
         # reset the groups as the directional model changed
+        self._reset_direction_dependent()
+
+    def _reset_direction_dependent(self):
+        # the selection of point pairs changed: the mask, and the lag edges
+        # (derived from the selected pairs only), groups, pair counts and
+        # the fit that were calculated for the old selection are outdated
+        self._direction_mask_cache = None
         self._groups = None
+        self._bin_count = None
+        if getattr(self, '_bin_func_name', None) != 'custom_bin_edges':
+            self._bins = None
+        self.cof, self.cov = None, None
 
     @property
     def bins(self):
